@@ -3,6 +3,8 @@
 A record of `nslots` slots of SLOT bases; slot s holds gene g<s> at [s*SLOT+1, s*SLOT+4).
 Protocluster spec: [cs, ce, nl, nr, product]  core = slots cs..ce inclusive (ce < cs wraps on a ring),
 neighbourhood nl/nr slots to the left/right.
+With a sixth element "t" (tight) the core is the span of the genes only ([cs*SLOT+1, ce*SLOT+4)), so that cores of adjacent slots
+are separated by a few bases instead of touching and extents end inside slots (the slot-aligned universe has no small gaps).
 """
 from antismash.common.secmet.features import Protocluster, SubRegion
 from antismash.common.secmet.locations import FeatureLocation as F
@@ -38,19 +40,24 @@ def default_core_functions(nslots):
 
 def make_protocluster(L, circular, spec):
     """-> Protocluster or None when the spec does not fit the topology"""
-    cs, ce, nl, nr, product = spec
+    cs, ce, nl, nr, product = spec[:5]
+    tight = len(spec) > 5 and spec[5] == "t"
     nslots = L // SLOT
     if not circular and ce < cs:
         return None
     clen = ((ce - cs) % nslots + 1) * SLOT
-    core = ring_loc(cs * SLOT, clen, L, 1)
+    cstart = cs * SLOT
+    if tight:
+        clen -= 3
+        cstart += 1
+    core = ring_loc(cstart, clen, L, 1)
     if circular:
         total = clen + (nl + nr) * SLOT
         if total >= L:
             return None
-        loc = ring_loc((cs - nl) * SLOT, total, L, 1)
+        loc = ring_loc(cstart - nl * SLOT, total, L, 1)
     else:
-        loc = F(max(0, (cs - nl) * SLOT), min(L, (ce + 1 + nr) * SLOT), 1)
+        loc = F(max(0, cstart - nl * SLOT), min(L, cstart + clen + nr * SLOT), 1)
     return Protocluster(core, loc, "tool", product, SLOT, max(nl, nr) * SLOT, "rule", "cat")
 
 
